@@ -188,7 +188,9 @@ def main(argv):
         for m in getattr(mod, "REQUIRED_MONITORS", []):
             if merged.monitors.get(m, 0) == 0:
                 inconc.append(f"deciding monitor '{m}' was never evaluated")
-        for a in getattr(mod, "ANCHORS", []):
+        # anchors are observation coverage, reported in the evidence; only the ones a module declares as REQUIRED_ANCHORS decide
+        # (a correct refactoring may legitimately stop calling a helper; the deciding monitors are covered by REQUIRED_MONITORS)
+        for a in getattr(mod, "REQUIRED_ANCHORS", []):
             if a in merged.cover_total and len(merged.cover.get(a, ())) == 0:
                 inconc.append(f"anchor {a} never entered")
         for s in getattr(mod, "REQUIRED_STATES", []):
@@ -212,6 +214,7 @@ def main(argv):
             "abstract_states_missing": [s for s in getattr(mod, "ALL_STATES", []) if merged.states.get(s, 0) == 0],
             "not_judged": dict(merged.not_judged),
             "anchor_coverage": {a: f"{len(merged.cover.get(a, ()))}/{merged.cover_total[a]}" for a in merged.cover_total},
+            "anchors_not_entered": [a for a in merged.cover_total if len(merged.cover.get(a, ())) == 0],
             "known_findings_seen": {k: len(v) for k, v in kf_seen.items()},
             "inconclusive_reasons": inconc,
             "observed_maxima": {k: float(f"{v:.3g}") for k, v in merged.maxima.items()},
